@@ -157,14 +157,14 @@ def r2(ck):
                "FilePatch::apply is also called from %s" % others, fa.where())
 
 
-def r3(ck):
+def r3(ck, rule="C16-R3"):
     prog = ck.prog
     ch = ck.anchor("rapidquilt::apply::common::choose_filename_to_patch")
     gol = ck.anchor("ModifiedFiles::<'arena, 'config>::get_or_load")
     if ch is None or gol is None:
         return
     ex = calls_named(ch, "std::path::Path::exists", "std::path::Path::try_exists", "std::fs::metadata", "std::fs::symlink_metadata", "std::path::Path::is_file")
-    ck.floor("C16-R3", "disk probes in choose_filename_to_patch", len(ex), 1)
+    ck.floor(rule, "disk probes in choose_filename_to_patch", len(ex), 1)
     sws = pt.discr_switches(ch, lambda e, rv: df.is_call(e, "HashMap::<K, V, S, A>::get") or df.mentions(e, lambda x: df.is_call(x, "HashMap::<K, V, S, A>::get")))
     for bb, t, c in ex:
         ok = False
@@ -174,15 +174,15 @@ def r3(ck):
                 # the map lookup and the probe concern the same name
                 key = sw["expr"]
                 ok = True
-        ck.require(ok, "C16-R3", "disk consulted only for names not in the map (choose_filename_to_patch)",
+        ck.require(ok, rule, "disk consulted only for names not in the map (choose_filename_to_patch)",
                    "the disk probe is not dominated by the None edge of the in-memory lookup: a file created or deleted earlier in the run "
                    "would be resolved from stale disk state", ch.where(t))
     lf = [(bb, t) for bb, t in gol.calls() if (callee_of(t).get("path") or "").endswith("Arena::load_file")]
-    ck.floor("C16-R3", "load_file calls in get_or_load", len(lf), 1)
+    ck.floor(rule, "load_file calls in get_or_load", len(lf), 1)
     sws = pt.discr_switches(gol, lambda e, rv: (rv.get("adt") or "").endswith("hash::map::Entry"))
     for bb, t in lf:
         ok = any(sw["edges"].get("Vacant") and bb in cfg.dominated_by_edge(gol, sw["edges"]["Vacant"]) for sw in sws)
-        ck.require(ok, "C16-R3", "file loaded from disk only when absent from the map (get_or_load)",
+        ck.require(ok, rule, "file loaded from disk only when absent from the map (get_or_load)",
                    "load_file is not dominated by the Vacant edge of the map entry", gol.where(t))
 
 
